@@ -3,7 +3,7 @@ surface-type table agreement.  Intersection/sense/normal consistency: not decide
 import re
 from fractions import Fraction
 from cfg import path_leaf
-from common import C, short
+from common import local_refs, C, short
 from astutil import strip, find_all, show, OutOfVocabulary
 from facts import AnalysisBroken
 import witness
@@ -21,7 +21,7 @@ NOT_DECIDED = ("positivity/minimality of intersection distances, sense = sign of
 LEVEL_NOTE = ("Assumption: the stored rotation matrix is orthonormal (checked by the class only "
               "with a debug assertion). SignedPermutation (bit-packed) is outside the vocabulary.")
 
-TECHNIQUE = ('affine abstract interpretation (words over R, R^T with R^T R = I) of transform_up/down and rotate_up/down; polynomial-domain interpretation (exact, rational coefficients) of the quadric translators/transformer compared with f(x - t) / f(R^T (x - t)); constructor/accessor contradiction rule for surfaces rebuilt from accessors; static_assert witness and switch/enum/name-table agreement')
+TECHNIQUE = ('affine abstract interpretation (words over R, R^T with R^T R = I) of transform_up/down and rotate_up/down; polynomial-domain interpretation (exact, rational coefficients) of the quadric translators/transformer compared with f(x - t) / f(R^T (x - t)); constructor/accessor contradiction rule for surfaces rebuilt from accessors; data/control dependence of every solver exit on the leading coefficient; static_assert witness and switch/enum/name-table agreement')
 
 UNITS = [
     "src/orange/OrangeParams.cc",
@@ -213,6 +213,7 @@ def run(db, cx):
           why="duplicate or missing names make the JSON surface type ambiguous")
     quadric_translation(db, cx)
     rebuild_from_accessors(db, cx)
+    solver_dependence(db, cx)
 
 
 def fmt(form):
@@ -359,3 +360,60 @@ def rebuild_from_accessors(db, cx):
                       why="rebuilding the surface from that accessor applies the constructor's "
                           "normalisation a second time: even a zero translation changes the surface")
     cx.floor("surfaces rebuilt from accessors in SurfaceTranslator", n, 3)
+
+
+def solver_dependence(db, cx):
+    """C12.5-solver-dependence (dependence analysis).  Whether a x^2 + 2(b/2) x + c = 0 has a
+    positive root cannot be decided without the leading coefficient: for every (b/2, c) not both
+    zero there are values of `a` with and without a positive root.  So every exit of
+    solve_general must depend on `a` - through the value returned or through a condition that
+    controls reaching it; likewise solve_along_surface (a = 0: -c / b) on `half_b`.  An early
+    "no intersection" that looks only at the other coefficients is wrong for some surface
+    (negative leading coefficient: cones, hyperboloids, saddles)."""
+    QS = C + "detail::QuadraticSolver::"
+    table = [("solve_general", "a", "the leading coefficient a"),
+             ("solve_along_surface", "half_b", "the linear coefficient b/2")]
+    n = 0
+    for meth, prm, what in table:
+        fs = db.get(QS + meth)
+        cx.require(fs, "anchor QuadraticSolver::%s not found" % meth)
+        for f in fs:
+            cx.require(prm in [p_["n"] for p_ in f.r["params"]],
+                       "QuadraticSolver::%s has no parameter `%s`" % (meth, prm))
+            branches = [b for b in f.branch_blocks(lambda c, _b: True) if None not in f.blocks[b]["succ"]]
+
+            def closure(names, pos, depth=4):
+                out = set(names)
+                frontier = set(local_refs(names))
+                for _ in range(depth):
+                    nxt = set()
+                    for v in frontier:
+                        for (_b, _i, d) in f.reaching_defs(v, pos):
+                            out |= set(d.get("refs", []))
+                            nxt |= set(local_refs(d.get("refs", [])))
+                        # element-wise writes (result[0] = ...)
+                        for (_b, _i, w) in f.events("write"):
+                            if w.get("path", {}).get("root") in ("l:" + v,):
+                                out |= set(w.get("refs", []))
+                                nxt |= set(local_refs(w.get("refs", [])))
+                    if not nxt:
+                        break
+                    frontier = nxt
+                return out
+            for (b, i, ev) in f.events("return"):
+                dep = closure(ev.get("refs", []), (b, i))
+                ctrl = []
+                for br in branches:
+                    for e in (0, 1):
+                        if f.guarded_by_edge((b, i), br, e):
+                            c = f.blocks[br]["cond"]
+                            dep |= closure(c.get("allrefs", c.get("refs", [])), (br, 0))
+                            ctrl.append(c.get("t", "")[:40])
+                n += 1
+                cx.ob("C12.5-solver-dependence", "%s: the result returned at %s depends on %s"
+                      % (meth, short(ev["loc"]).split(":", 1)[1], what), prm in dep,
+                      "returns `%s` under [%s]" % (ev.get("t", "")[:60], "; ".join(ctrl)),
+                      short(ev["loc"]),
+                      why="no statement about the positive roots holds for all values of this "
+                          "coefficient: an exit that ignores it is wrong for some surface")
+    cx.floor("solver exits examined", n, 4)
